@@ -778,6 +778,7 @@ OPS = [
     _op("cummax_nulls", lambda t: t["L"][["c", "b"]].cummax(), "cumulative"),
     _op("cumsum_skipna_false", lambda t: t["L"].c.cumsum(skipna=False), "cumulative"),
     _op("cumsum_after_filter", lambda t: t["L"][t["L"].a > 3][["a", "b"]].cumsum(), "cumulative"),
+    _op("cummax_one_column", lambda t: t["L"][["b"]].cummax(), "cumulative"),
     _op("cumcount_like", lambda t: (t["L"].b * 0 + 1).cumsum(), "cumulative"),
     # ---- windows
     _op("shift1", lambda t: t["L"][["a", "b"]].shift(1), "overlap", window=(1, 0)),
@@ -930,6 +931,9 @@ def run_case(case):
                     # known finding D28: the aligned divisions have two entries, the repartition is skipped
                     return ({"kind": "align", "lower_skips_repartition": True, "what": "raised:AssertionError"},
                             f"{type(ex).__name__} in Blockwise._divisions (D28)")
+            if isinstance(ex, IndexError) and "invalid index to scalar variable" in msg and op["name"] == "cummax_one_column":
+                # known finding D49: the 1x1 carry of a one-column frame is squeezed to a scalar
+                return ({"site": "TakeLast/cummax_aggregate", "case": "one-column frame"}, f"IndexError: {msg[:80]} (D49)")
             import traceback
 
             tb = traceback.format_exc().splitlines()
